@@ -154,6 +154,7 @@ type Exec struct {
 
 	mutexes map[*Value]*mutexState
 	wgs     map[*Value]*wgState
+	syncMaps map[*Value]*mapObj // sync.Map model: an association list per map object
 	timers  []*vtimer
 	tick    int
 
